@@ -50,9 +50,13 @@ pub enum ReadKind {
     SerdeJson,
     Stats,
     Data,
+    /// `{:?}` of the level (and of its snapshot)
+    DebugFmt,
+    /// JSON serialization of the level, its snapshot and its package into a writer that fails part-way
+    FailedWrite,
 }
 
-pub const ALL_READS: [ReadKind; 9] = [
+pub const ALL_READS: [ReadKind; 11] = [
     ReadKind::Aggregates,
     ReadKind::IterOrders,
     ReadKind::Snapshot,
@@ -62,6 +66,8 @@ pub const ALL_READS: [ReadKind; 9] = [
     ReadKind::SerdeJson,
     ReadKind::Stats,
     ReadKind::Data,
+    ReadKind::DebugFmt,
+    ReadKind::FailedWrite,
 ];
 
 #[derive(Clone, Copy, Debug, PartialEq, Eq, Hash, Serialize, Deserialize)]
@@ -560,6 +566,23 @@ pub fn perform_read(level: &PriceLevel, k: ReadKind) -> Result<String, String> {
                     "{:?}",
                     (s.orders_added(), s.orders_removed(), s.orders_executed(), s.quantity_executed(), s.value_executed())
                 )
+            }
+            ReadKind::DebugFmt => {
+                let _ = format!("{:?}", level);
+                let _ = format!("{:?}", level.snapshot());
+                let _ = format!("{:?}", level.stats());
+                "rendered".to_string()
+            }
+            ReadKind::FailedWrite => {
+                let full = serde_json::to_string(level).map(|t| t.len()).unwrap_or(0);
+                for limit in [full / 2, full.saturating_sub(2), 1] {
+                    let _ = serde_json::to_writer(crate::checks::codec::FailingWriter { limit }, level);
+                    let _ = serde_json::to_writer(crate::checks::codec::FailingWriter { limit }, &level.snapshot());
+                    if let Ok(p) = level.snapshot_package() {
+                        let _ = serde_json::to_writer(crate::checks::codec::FailingWriter { limit }, &p);
+                    }
+                }
+                "write failed".to_string()
             }
             ReadKind::Data => {
                 let d = PriceLevelData::from(level);
